@@ -1,0 +1,22 @@
+//go:build verif
+
+package extract
+
+import (
+	"seehuhn.de/go/pdf"
+	"seehuhn.de/go/postscript/cid"
+)
+
+// This file is only compiled with the build tag "verif".  It exposes the
+// unexported width-array decoders to an external verification harness; it
+// adds no behaviour of its own.
+
+// VerifDecodeCompositeWidths calls decodeCompositeWidths.
+func VerifDecodeCompositeWidths(c pdf.Cursor, obj pdf.Object) (map[cid.CID]float64, error) {
+	return decodeCompositeWidths(c, obj)
+}
+
+// VerifGetSimpleWidths calls getSimpleWidths.
+func VerifGetSimpleWidths(ww []float64, c pdf.Cursor, fontDict pdf.Dict, defaultWidth float64) bool {
+	return getSimpleWidths(ww, c, fontDict, defaultWidth)
+}
